@@ -46,9 +46,25 @@
 //     non-overlapping (opening primer, closing primer of the same marker) pairs
 //     with a non-empty barcode and well separated repeats of the same primer, each
 //     site having one well-defined span; or when there is no site at all (one
-//     flagged copy of the read).  For any other read (lone, overlapping, crossed,
+//     flagged copy of the read).  For any other read (overlapping, crossed,
 //     ambiguous sites; empty barcode) only the safety clause is asserted: which
 //     sites the matcher keeps is C10's subject and not stated here.
+//   - Lone priming sites (partial amplicons in a chimeric read, class "mixed"): the
+//     statement lets the flanks of a tag-primer-barcode-primer-tag construct be
+//     arbitrary and ranges over chimeric reads and partial priming sites, so a
+//     complete construct must come out whatever partial sites lie before or after
+//     it.  Among well separated, non-overlapping sites the amplicons are the pairs
+//     of NEIGHBOURING sites (opening primer, closing primer of the same marker on the
+//     same strand) - "a forward hit followed by the matching complementary hit
+//     delimits a barcode" in the position-sorted list of all hits; an opening site
+//     followed by another opening site is abandoned in favour of the later one; a
+//     closing site with no opening site of its marker and strand before it, or
+//     whose opening site was already closed by a nearer occurrence of the same
+//     closing primer, delimits nothing; a read without any pair is output as one
+//     flagged copy.  NOT decided (class "other", safety clause only): a closing
+//     site whose nearest candidate opening site is separated from it by sites of
+//     other primers (would the barcode span a foreign priming site? this covers a
+//     foreign lone site or a whole foreign amplicon nested inside an amplicon).
 //   - Tags "as extracted" are the bytes at the declared spacer distance from the
 //     primer site (empty when they would lie off the read: the record must then be
 //     flagged unless the side is declared tag-less).  hamming / indel: the unique
@@ -94,9 +110,10 @@ func TestMain(m *testing.M) {
 		evid.Spec{Name: "TestKnownFindings", Kind: "plain", QuickShards: 1, ThoroughShards: 1},
 		evid.Spec{Name: "TestPropDemux", Kind: "rapid", Quick: 20000, Thorough: 800000, QuickShards: 8, ThoroughShards: 16},
 		evid.Spec{Name: "TestPropCLI", Kind: "rapid", Quick: 480, Thorough: 12000, QuickShards: 8, ThoroughShards: 16},
+		evid.Spec{Name: "TestPropMosaic", Kind: "rapid", Quick: 6000, Thorough: 60000, QuickShards: 8, ThoroughShards: 16},
 	)
 	evid.Commands("obimultiplex")
-	evid.Note("rule", "A case is a sample sheet (text or CSV format; 1-3 markers with pairwise different IUPAC primers of (8+3*budget)..36 nt; per marker and side one tag length 0..8, absent / asymmetric tags, 1-5 tags per side at pairwise distance >= 1..3, 1-8 declared tag pairs; CSV parameter lines for spacers 0..5, strict/hamming/indel matching, primer mismatches 0..3, primer indels, tag delimiter and tag indels in their global, forward_/reverse_ and per-primer forms; -e / --with-indels) plus 6-14 reads built by construction: flank + tag + spacer + primer with 0..budget(+1) mismatches + barcode + the same on the other strand, in either orientation, with declared / undeclared / random tag pairs, tag substitutions and indels, chimeras of 2-3 amplicons in mixed orientations, truncated or one-primer reads, random reads. Every read is submitted as is and reverse-complemented, in-process (obiformats.ReadNGSFilter + NGSLibrary.ExtractMultiBarcodeSliceWorker, as obimultiplex does) and in batches through the real command `obimultiplex -t sheet [-u file | --keep-errors] [-e N] [--with-indels]` (fasta and fastq). Oracles: (1) constructive - an independent brute-force scan (IUPAC Hamming / Sellers) of the four orientations of every primer; when the sites are exactly well-formed pairs the expected records (barcode forward->reverse, qualities, direction, primers, matches, error counts, tags at spacer distance, sample/experiment/annotations or error flag by own exact / unique-nearest Hamming / Levenshtein lookup) are compared as a multiset; no site at all -> one flagged copy of the read; (2) strand symmetry between the two runs; (3) safety on every record of every read: flagged, or assigned to the sample its reported tags designate, matches within budget at the reported distance, pieces adjacent in the read. Non-trivial = a determined amplicon assigned to a sample with >= 1 primer mismatch, a non-zero spacer next to a tag, or read in reverse orientation. Distinct = hash of (sheet text, options, read).")
+	evid.Note("rule", "A case is a sample sheet (text or CSV format; 1-3 markers with pairwise different IUPAC primers of (8+3*budget)..36 nt; per marker and side one tag length 0..8, absent / asymmetric tags, 1-5 tags per side at pairwise distance >= 1..3, 1-8 declared tag pairs; CSV parameter lines for spacers 0..5, strict/hamming/indel matching, primer mismatches 0..3, primer indels, tag delimiter and tag indels in their global, forward_/reverse_ and per-primer forms; -e / --with-indels) plus 6-14 reads built by construction: flank + tag + spacer + primer with 0..budget(+1) mismatches + barcode + the same on the other strand, in either orientation, with declared / undeclared / random tag pairs, tag substitutions and indels, chimeras of 2-3 amplicons in mixed orientations, truncated or one-primer reads, random reads, mosaics of 2-4 pieces in any order and orientation (complete amplicons; partial ones: opening primer only, closing primer only, opening or closing primer 1-3 mismatches over budget; junk; TestPropMosaic draws mosaics only). Every read is submitted as is and reverse-complemented, in-process (obiformats.ReadNGSFilter + NGSLibrary.ExtractMultiBarcodeSliceWorker, as obimultiplex does) and in batches through the real command `obimultiplex -t sheet [-u file | --keep-errors] [-e N] [--with-indels]` (fasta and fastq). Oracles: (1) constructive - an independent brute-force scan (IUPAC Hamming / Sellers) of the four orientations of every primer; when the sites are exactly well-formed pairs the expected records (barcode forward->reverse, qualities, direction, primers, matches, error counts, tags at spacer distance, sample/experiment/annotations or error flag by own exact / unique-nearest Hamming / Levenshtein lookup) are compared as a multiset; no site at all -> one flagged copy of the read; well separated sites some of which are lone (class mixed) -> the amplicons are the neighbouring (opening, matching closing) pairs, none -> one flagged copy; (2) strand symmetry between the two runs; (3) safety on every record of every read: flagged, or assigned to the sample its reported tags designate, matches within budget at the reported distance, pieces adjacent in the read. Non-trivial = a determined amplicon assigned to a sample with >= 1 primer mismatch, a non-zero spacer next to a tag, or read in reverse orientation; for check mosaic: a read with >= 1 lone priming site next to >= 1 determined amplicon that the oracle assigns to a declared sample. Distinct = hash of (sheet text, options, read).")
 	evid.Main(m, "C12")
 }
 
